@@ -167,6 +167,12 @@ impl<'s, M: Matcher, S: Sink> MultiLine<'s, M, S> {
                 if keepgoing {
                     keepgoing = match self.last_match.take() {
                         None => true,
+                        // An empty range is the position after the final line
+                        // terminator (see sink_matched). There is no line to
+                        // report there, and so no context to go with it. The
+                        // context still owed to earlier lines is handled
+                        // below.
+                        Some(last_match) if last_match.is_empty() => true,
                         Some(last_match) => {
                             self.sink_context(&last_match)?
                                 && self.sink_matched(&last_match)?
